@@ -386,6 +386,25 @@ func (w *c18world) variants(doc *jmut.Node, rngPick func(n int) int, full bool) 
 			d2.Del("totals")
 			emit("graft", where+"[0].ext undefined key", d2)
 		}
+		{
+			d := doc.Clone()
+			pay := d.Get("payment")
+			if pay == nil || pay.K != jmut.Obj {
+				pay = jmut.O()
+				d.Set("payment", pay)
+			}
+			pay.Set("advances", jmut.Ar(jmut.O(jmut.Member{Key: "description", Val: jmut.S("d")}, jmut.Member{Key: "amount", Val: jmut.S("1.00")}, jmut.Member{Key: "currency", Val: jmut.S("ZZZ")})))
+			d.Del("totals")
+			emit("graft", "payment.advances[0].currency=ZZZ", d)
+			d2 := doc.Clone()
+			d2.Set("preceding", jmut.Ar(jmut.O(jmut.Member{Key: "code", Val: jmut.S("X1")}, jmut.Member{Key: "identities", Val: jmut.Ar(jmut.O(jmut.Member{Key: "country", Val: jmut.S("QQ")}, jmut.Member{Key: "code", Val: jmut.S("1")}))})))
+			d2.Del("totals")
+			emit("graft", "preceding[0].identities[0].country=QQ", d2)
+			d3 := doc.Clone()
+			d3.Set("preceding", jmut.Ar(jmut.O(jmut.Member{Key: "code", Val: jmut.S("X1")}, jmut.Member{Key: "currency", Val: jmut.S("ZZZ")}, jmut.Member{Key: "ext", Val: jmut.O(jmut.Member{Key: "zz-undefined-ext", Val: jmut.S("x")})})))
+			d3.Del("totals")
+			emit("graft", "preceding[0] with undefined currency and extension", d3)
+		}
 		for _, where := range []string{"ordering.buyer", "ordering.seller", "delivery.receiver", "payment.payee"} {
 			parts := strings.Split(where, ".")
 			d := doc.Clone()
@@ -536,6 +555,24 @@ func runC18(c *Ctx) {
 		jobs = append(jobs, job{it, c18variant{"unmodified", "as shipped", docB}})
 		for _, v := range w.variants(doc, rng.IntN, c.Thorough) {
 			jobs = append(jobs, job{it, v})
+		}
+	}
+	// documents without any regime (a supplier in a country that has none): their
+	// currencies and countries must still be known codes
+	for _, typ := range []string{"bill/invoice", "bill/order", "bill/delivery", "bill/payment"} {
+		for _, cur := range []string{"JPY", "EUR", "USD", "JPX", "ZZZ", "eur", "EURO"} {
+			for _, cc := range []string{"JP", "SE", "ZZ", "QQ"} {
+				lines := `[{"quantity":"1","item":{"name":"thing","price":"100"},"taxes":[{"cat":"VAT","percent":"10%"}]}]`
+				if typ == "bill/payment" {
+					lines = `[{"debit":"100","document":{"code":"INV-1"}}]`
+				}
+				extra := ""
+				if typ == "bill/payment" {
+					extra = `,"type":"receipt","method":{"key":"credit-transfer"}`
+				}
+				doc := fmt.Sprintf(`{"$schema":"https://gobl.org/draft-0/%s","uuid":"0190a1b2-c3d4-7e5f-8a9b-0c1d2e3f4a5b","code":"R-1","issue_date":"2024-06-01","currency":%q%s,"supplier":{"name":"S","tax_id":{"country":%q}},"customer":{"name":"C"},"lines":%s}`, typ, cur, extra, cc, lines)
+				jobs = append(jobs, job{corpus.Item{Rel: "generated:regime-less " + typ, Type: typ}, c18variant{"regime-less", fmt.Sprintf("currency=%s supplier country=%s", cur, cc), []byte(doc)}})
+			}
 		}
 	}
 	if max := c.N(60000, 3000000); len(jobs) > max {
